@@ -41,7 +41,7 @@ type c01Sample struct {
 }
 
 // mutation operators on a JSON-LD credential / presentation (as parsed JSON)
-var c01LDMutations = []string{"claim-value", "credential-id", "issuer", "subject-id", "issuance-date", "expiration-date", "status-index", "status-list", "proof-created", "proof-purpose", "proof-verification-method", "proof-signature", "type-added", "member-added"}
+var c01LDMutations = []string{"claim-value", "credential-id", "issuer", "subject-id", "issuance-date", "expiration-date", "status-index", "status-index-case-variant", "status-index-case-variant", "status-list", "proof-created", "proof-purpose", "proof-verification-method", "proof-signature", "type-added", "member-added"}
 var c01JWTMutations = []string{"jwt-claim", "jwt-exp", "jwt-sub", "jwt-iss", "jwt-jti", "jwt-header-kid", "jwt-header-alg-none", "jwt-signature", "jwt-status"}
 
 func mutateLD(kind string, raw []byte) []byte {
@@ -131,6 +131,14 @@ func mutateLD(kind string, raw []byte) []byte {
 				st["id"] = id[:i] + "#77777"
 			}
 		}
+	case "status-index-case-variant":
+		// the signed member stays; a member whose name differs in case only is added after it (json.Marshal sorts the lower-case
+		// name behind the camel-case one). No JSON-LD context defines it, a decoder that matches names case-insensitively reads it.
+		st := status()
+		if st == nil {
+			return nil
+		}
+		st["statuslistindex"] = "77777"
 	case "status-list":
 		st := status()
 		if st == nil {
